@@ -123,7 +123,7 @@ def demoRoutes : List (Route Src) :=
   [ { sets := [[fun cx => if cx.avail.length < 2 then .more else .no]], h := fun cx => ([], .next cx) },
     { sets := [], h := fun _ => ([], .terminal) } ]
 
-example : runIdx (route srcOps demoRoutes 8 (.l4 [] 0 0 false (.raw [[1], [2, 3]]))).1 = [1] := by
+example : runIdx (route srcOps demoRoutes 8 (.l4 [] 0 0 false (.raw [[1], [2, 3]] false))).1 = [1] := by
   decide
 
 end L4.C02
